@@ -529,6 +529,19 @@ def specials_c08():
         it = [("PUSH", 0xAA)] + mp(2, cd0) + ["SSTORE", ("PUSH", hk, 32), "SLOAD"] + out_(0)
         it += [("PUSH", 0xBB), ("PUSH", hk, 32), "SSTORE"] + mp(2, cd0) + ["SLOAD"] + out_(1) + mp(2, [("PUSH", 5)]) + ["SLOAD"] + out_(2)
         sp("map-const-hash-vs-sym-key", it + ret(3), "const-before-runtime-hash/mapping", (gen._k32(5) + gen._k32(2),), layout)
+        # a nested dynamic array and a mapping with "colliding coordinates": a[i][j] (outer array at slot 0) against m[k] (slot 1) with
+        # inner base == mapping key and outer index == mapping slot.  The locations keccak(keccak(0)+1)+j and keccak(k . 1) never alias
+        def hash_top():  # keccak(top of stack)
+            return ["PUSH0", "MSTORE", ("PUSH", 32), "PUSH0", "SHA3"]
+        inner = arr_rt(0) + [("PUSH", 1), "ADD"] + hash_top()  # data slot of a[1]
+        # (the index is not masked: z3 folds `even constant + (x & 1)` into a Concat, which is the known generic-layout finding)
+        small = cd0 + [("PUSH", 3), "LT", ("PUSHL", "big"), "JUMPI"]  # require(j <= 3)
+        it = small + [("PUSH", 0x55)] + inner + cd0 + ["ADD", "SSTORE"]  # a[1][j] = 0x55
+        it += mp(1, [("PUSH", 0)]) + ["SLOAD"] + out_(0) + mp(1, cd1) + ["SLOAD"] + out_(1)  # m[0], m[k]
+        it += inner + ["SLOAD"] + out_(2)
+        sp("nested-array-vs-mapping", it + ret(3) + [("LABEL", "big"), "STOP"], "nested-array-vs-mapping", (), layout)
+        it = small + [("PUSH", 0x66)] + mp(1, cd1) + ["SSTORE"] + inner + cd0 + ["ADD", "SLOAD"] + out_(0) + mp(1, cd1) + ["SLOAD"] + out_(1)
+        sp("mapping-vs-nested-array", it + ret(2) + [("LABEL", "big"), "STOP"], "nested-array-vs-mapping", (), layout)
         # scalar vs mapping vs array never alias; overwrite order
         it = [("PUSH", 1), ("PUSH", 0), "SSTORE"] + cd0 + mp(0, cd1) + ["SSTORE"] + cd1 + arr_rt(0) + cd0 + [("PUSH", 1), "AND", "ADD", "SSTORE"]
         it += [("PUSH", 0), "SLOAD"] + out_(0) + mp(0, cd1) + ["SLOAD"] + out_(1) + arr_rt(0) + ["SLOAD"] + out_(2) + arr_rt(0) + [
